@@ -60,6 +60,7 @@ def ob(
     note: str = "",
     expect: Optional[str] = None,
     split: Optional[Dict[str, List[Any]]] = None,
+    witness_first_only: bool = False,
 ):
     """Marks a harness function as an obligation.
 
@@ -81,6 +82,7 @@ def ob(
             note=note,
             expect=expect,
             split=split,
+            witness_first_only=witness_first_only,
         )
         _OBLIGATIONS[fn.__module__].append(fn)
         return fn
